@@ -156,6 +156,19 @@ class PGen:
         if p < 0.95:
             return {'k': 'mexpr', 'l': {'m': True}, 'op': r.choice(list(base.OPS)),
                     'r': {'c': jv(r.choice([0, 1, 5, 'a', 'm', None, 2.5]))}}
+        if p < 0.965:
+            # a Check inside a pattern: its CheckError is a rejection; sequence arguments as list / tuple;
+            # validators that fail in every way, with and without a default
+            kind = r.choice(['list', 'tuple'])
+            return r.choice([
+                lambda: {'k': 'check', 'instance_of': {'many': ['int', 'str'], 'as': kind}},
+                lambda: {'k': 'check', 'type': {'many': ['int', 'bool'], 'as': kind}},
+                lambda: {'k': 'check', 'one_of': [jv(1), jv('a')], 'one_of_as': kind},
+                lambda: {'k': 'check', 'validate': {'one': {'id': self.fresh(), 'fn': r.choice(
+                    ['raises_value', 'never', 'is_pos', 'ret_zero', 'ret_none'])}},
+                    'd': r.choice([None, {'c': jv('cd')}, {'t': []}, {'val': jv(0)},
+                                   {'seq': [{'t': []}], 'tuple': False}])},
+                lambda: {'k': 'check', 'instance_of': {'one': 'Sized'}, 'd': {'c': jv([])}}])()
         if p < 0.98:
             # a T access inside a pattern: a GlomError that is not a MatchError when it fails
             return {'k': 't', 'e': [r.choice([{'s': 'a'}, {'i': 0}, {'s': 'zz'}])]}
@@ -250,9 +263,16 @@ class PGen:
                 used.append(k)
                 q = r.random()
                 d = None
-                if q < 0.5:
-                    d = {'c': jv(r.choice([0, 'dv', None, [1]]))}
-                elif q < 0.62:
+                if q < 0.4:
+                    d = {'c': jv(r.choice([0, 'dv', None, [1], {'n': (1,)}]))}
+                elif q < 0.47:
+                    d = {'val': jv(r.choice([0, 'dv', [1]]))}
+                elif q < 0.53:
+                    d = {'seq': [{'c': jv(r.choice([0, 'x']))} for _ in range(r.choice([1, 2]))],
+                         'tuple': r.random() < 0.5}
+                elif q < 0.58:
+                    d = {'seq': [{'c': jv(1)}, {'t': [{'s': r.choice(['a', 'zz'])}]}], 'tuple': r.random() < 0.5}
+                elif q < 0.66:
                     d = {'t': [{'s': r.choice(['a', 'zz'])}]}
                 es.append([{'opt': d}, {'k': 'lit', 'v': jv(k)}, val])
             elif p < 0.82:
@@ -322,6 +342,8 @@ class PGen:
             return self.regex_witness(j)
         if k == 'M':
             return r.choice([1, 'x', [0]])
+        if k == 'check':
+            return r.choice([3, 1, 'a', 'ab'])
         if k == 't':
             key = dec_v(j['e'][0])
             return {key: 1} if isinstance(key, str) else [5]
@@ -616,10 +638,36 @@ def run_impl(case):
             out['target_built'] = None
         return out
     # the Match object that is used: the one built, or a copy of it
+    built_m = m
     m, res, used = apply_copy(case.get('copy'), m, [case['spec'], case.get('default')])
+    if case.get('copy') == 'pickle' and used != 'pickle' and not _has_kind(case['spec'], ('set', 'fset')):
+        # Match(p) itself holds boltons' unpicklable marker object; a PATTERN that went through a pickle
+        # round trip before it was wrapped in Match (a stored schema) is the next best thing
+        import pickle
+        try:
+            inner = pickle.loads(pickle.dumps(pobj))
+            m = glom.Match(inner, default=base.build_arg(case['default'])) if case.get('default') is not None \
+                else glom.Match(inner)
+            res, used = (lambda x: x), 'pickle-inner'
+        except Exception:
+            pass
     if used is not None:
         out['copy_used'] = used
     out['spec_built'] = fin(res)
+    def full(target):
+        """one call observed in full: glom(), verify(), matches(), snapshot of the target afterwards"""
+        o = {'main': base.observe(lambda: glom.glom(target, m), target),
+             'verify': base.observe(lambda: m.verify(target), target)}
+        del base.LOG[:]
+        try:
+            o['matches'] = bool(m.matches(target))
+        except Exception:
+            o['matches'] = None
+        try:
+            o['after'] = enc_v(target)
+        except base.Unencodable:
+            o['after'] = {'obj': 'unencodable'}
+        return o
     if 'hist' in case:
         # ONE Match object; calls and `abc.register(cls)` in the order given
         hb, seq = [], []
@@ -632,7 +680,7 @@ def run_impl(case):
             else:
                 t = dec_v(st['call'])
                 hb.append({'call': enc_v(t)})
-                seq.append(base.observe(lambda: glom.glom(t, m)))
+                seq.append(full(t))
         out['hist_built'] = hb
         out['impl_hist'] = seq
         return out
@@ -642,23 +690,17 @@ def run_impl(case):
         for tj in case['targets']:
             t = dec_v(tj)
             tb.append(enc_v(t))
-            seq.append(base.observe(lambda: glom.glom(t, m)))
+            seq.append(full(t))
         out['targets_built'] = tb
         out['impl_seq'] = seq
         return out
     target = dec_v(case['target'])
     out['target_built'] = enc_v(target)
-    out['impl'] = base.observe(lambda: glom.glom(target, m))
-    out['impl_verify'] = base.observe(lambda: m.verify(target))
-    del base.LOG[:]
-    try:
-        out['impl_matches'] = bool(m.matches(target))
-    except Exception:
-        out['impl_matches'] = None
-    try:
-        out['impl_after'] = enc_v(target)
-    except base.Unencodable:
-        out['impl_after'] = {'obj': 'unencodable'}
+    o = full(target)
+    out['impl'] = o['main']
+    out['impl_verify'] = o['verify']
+    out['impl_matches'] = o['matches']
+    out['impl_after'] = o['after']
     return out
 
 
@@ -712,6 +754,20 @@ def corpus_cases():
     yield {'spec': {'k': 'dict', 'es': [['plain', L('shapes'), {'k': 'list', 'cs': [T('A0')]}]]}, 'default': None,
            'hist': [{'register': ['A0', 'K0']}, {'call': jv({'shapes': [O('K0#c'), O('K2#s')]})},
                     {'register': ['A0', 'K2']}, {'call': jv({'shapes': [O('K0#c'), O('K2#s')]})}]}
+    # callables without __name__ (callable instance, functools.partial) at every kind of position
+    for form in base.PRED_FORMS:
+        for fn in ('never', 'raises_value', 'ret_none', 'is_pos', 'always'):
+            pr = {'k': 'pred', 'id': 0, 'fn': fn, 'form': form}
+            for tgt in (3, -1, 'x'):
+                yield {'spec': pr, 'default': None, 'target': jv(tgt)}
+                yield {'spec': {'k': 'list', 'cs': [pr, T('str')]}, 'default': None, 'target': jv([tgt, 'y'])}
+                yield {'spec': {'k': 'or', 'cs': [pr, T('int')], 'd': None}, 'default': None, 'target': jv(tgt)}
+                yield {'spec': {'k': 'not', 'c': pr}, 'default': None, 'target': jv(tgt)}
+                yield {'spec': {'k': 'dict', 'es': [['plain', pr, T('int')], ['plain', T('object'), T('object')]]},
+                       'default': None, 'target': jv({tgt: 1})}
+                yield {'spec': {'k': 'dict', 'es': [['plain', L('k'), pr]]}, 'default': {'c': jv('D')},
+                       'target': jv({'k': tgt})}
+                yield {'spec': {'k': 'tuple', 'cs': [pr, T('object')]}, 'default': None, 'target': jv((tgt, 0))}
     # copies of a pattern decide like the pattern
     for how in ('copy', 'deepcopy', 'pickle'):
         for spec, tgt in cases[:12]:
@@ -830,6 +886,16 @@ def with_copy(rng, case, p=0.2):
 
 
 def generate(rng, tier, scale, **focus):
+    last = None
+    for c in _generate(rng, tier, scale, **focus):
+        # one choice of callable forms (named function / callable instance / functools.partial) per pattern
+        sig = json.dumps(c['spec'], sort_keys=True)
+        if last is None or last[0] != sig:
+            last = (sig, base.vary_forms(rng, json.loads(sig)))
+        yield dict(c, spec=last[1])
+
+
+def _generate(rng, tier, scale, **focus):
     quick = tier == 'quick'
     n = (900 if quick else 30000) * scale
     maxd = 4 if quick else 5
@@ -839,8 +905,11 @@ def generate(rng, tier, scale, **focus):
         spec = g.pattern(rng.choice(list(range(1, maxd + 1))))
         default = None
         q = rng.random()
-        if q < 0.1:
+        if q < 0.08:
             default = {'c': jv(rng.choice(['D', None, [0]]))}
+        elif q < 0.1:
+            default = rng.choice([{'val': jv('D')}, {'seq': [{'t': []}, {'c': jv(0)}], 'tuple': False},
+                                  {'seq': [{'t': [{'s': 'a'}]}], 'tuple': True}])
         elif q < 0.14:
             default = {'t': rng.choice([[], [{'s': 'a'}], [{'i': 0}], [{'s': 'zz'}]])}
         targets = []
